@@ -33,6 +33,15 @@
 (*     reader's probe missed (a per-key write stamp taken before the probe *)
 (*     and compared under the entry lock); the reader loops.               *)
 (*                                                                         *)
+(* Mutation switches (FALSE = as the code is; TRUE = a plausible slip used  *)
+(* to GENERATE behaviours that would expose it; their counterexamples are  *)
+(* replayed on the real code, where they must pass):                       *)
+(*   FillOverwrite    the fill is a plain insert: it replaces an entry a   *)
+(*                    writer created while the reader was in the store.    *)
+(*   NoNegativeEntry  remove() of a key that is not cached leaves no       *)
+(*                    negative entry: the next get reads the old value     *)
+(*                    from the store until the remove is committed.        *)
+(*                                                                         *)
 (* Deliberate deviations from the code: the caller obeys the epoch rule    *)
 (* (a key is written through batches in epoch order - the store commits in *)
 (* epoch order, so anything else is the caller's bug, DESIGN 6#2); the     *)
@@ -42,6 +51,7 @@ EXTENDS Naturals, Integers, Sequences, FiniteSets, TLC, Json
 
 CONSTANTS Keys, Vals, Clients, MaxBatches, MaxOps,
           StaleFill,   \* defect switch #4, TRUE = as coded
+          FillOverwrite, NoNegativeEntry,   \* mutation switches (slips the code does NOT have)
           Gen          \* TRUE: only interleavings the harness can replay
 
 NoVal == 0       \* absent
@@ -111,7 +121,7 @@ CacheInsert(k, v, upd) ==
 
 CacheRemove(k, upd) ==
     IF ~cache[k].present
-    THEN IF upd = 1
+    THEN IF upd = 1 /\ ~NoNegativeEntry   \* (mutant NoNegativeEntry) no remembered absence for a vacant slot
          THEN [cache EXCEPT ![k] = [present |-> TRUE, val |-> NoVal, pin |-> 1, stale |-> FALSE]]
          ELSE cache
     ELSE IF upd = 1
@@ -246,7 +256,10 @@ ReadDb(c) ==
 Fill(c) ==
     /\ pc[c].st = "fill"
     /\ LET k == pc[c].k
-           fillIt == ~cache[k].present /\ (StaleFill \/ ~pc[c].raced) IN
+           \* (mutant FillOverwrite) a plain insert instead of insert-if-vacant: the value read
+           \* from the store replaces whatever a writer put there meanwhile (and its pin)
+           fillIt == \/ ~cache[k].present /\ (StaleFill \/ ~pc[c].raced)
+                     \/ FillOverwrite /\ cache[k].present IN
         /\ cache' = IF fillIt
                     THEN [cache EXCEPT ![k] = [present |-> TRUE, val |-> pc[c].rd, pin |-> 0,
                                                stale |-> pc[c].raced]]
